@@ -4,8 +4,11 @@ import json
 import os
 import random
 import re
+import threading
 
 import vp
+
+LOCK = threading.Lock()
 
 META = {
     "level": "translation_validation",
@@ -58,15 +61,12 @@ CORE = {
 # ---------------------------------------------------------------------------------------------
 # 1. the error table
 
-def error_table(ctx):
-    path = ctx.path("table", "table.ndjson")
-    _, so, _ = vp.run_driver(TAB, ["dump", "--out", path], timeout=600)
-    summ = vp.last_json_line(so)
-    if summ["rows"] < 100:
-        raise vp.ToolError(f"error table too small: {summ}")
-    res = vp.tlc("data", "FfiTable", workers=1, timeout=600, env={"TABLE": path}, coverage=False, cont=True)
-    vp.record_tlc(ctx, f"FfiTable[{summ['rows']} variants of {summ['enums']} error enums, {summ['consts']} C constants]", res,
-                  count=False)
+def error_table(ctx, path, summ):
+    """TLC evaluates the clauses of spec/data/FfiTable.tla over the table dumped from the running code"""
+    res = vp.tlc("data", "FfiTable", workers=1, timeout=900, env={"TABLE": path}, coverage=False, cont=True)
+    with LOCK:
+        vp.record_tlc(ctx, f"FfiTable[{summ['rows']} variants of {summ['enums']} error enums, {summ['consts']} C constants]", res,
+                      count=False)
     if res.timed_out:
         raise vp.ToolError("TLC timed out on FfiTable")
     verdict, offenders = {}, {}
@@ -85,44 +85,67 @@ def error_table(ctx):
     ctx.coverage["error_table"] = {"variants": summ["rows"], "rust_error_enums": summ["enums"], "c_enums": summ["cenums"],
                                    "c_constants": summ["consts"], "conversions_not_returning": summ["not_evaluated"],
                                    "clauses": verdict}
+    cmd = "harness/target/debug/drv-ffitab dump --out t.ndjson ; TABLE=t.ndjson tlc spec/data/FfiTable"
 
     def row(o):
         return f"{o['enum']}::{o['variant']} -> {o['code']} ({o['cenum']} \"{o['cname']}\", {o['st']})"
+
+    def twins(x, y):
+        """XOpenError(V) / XCreateError(V) of one *OpenOrCreateError enum"""
+        mx = re.match(r"(\w+?)(Open|Create)Error\((\w+)\)$", x["variant"])
+        my = re.match(r"(\w+?)(Open|Create)Error\((\w+)\)$", y["variant"])
+        return bool(mx and my and x["enum"].endswith("OpenOrCreateError") and x["enum"] == y["enum"]
+                    and mx.group(1) == my.group(1) and mx.group(3) == my.group(3) and mx.group(2) != my.group(2))
+    out = []
     for clause in CLAUSES:
         offs = offenders.get(clause, []) if not verdict[clause] else []
         if clause == "NamesDistinct":
-            by_enum = {}
-            for a, b in offs:
-                by_enum.setdefault(a["enum"], []).append((a, b))
-            for en, pairs in sorted(by_enum.items()):
-                ctx.report(vp.Violation(
-                    f"error table: NamesDistinct fails for {en}: {len(pairs)} pairs of distinct C codes share their printable "
-                    f"name, e.g. {row(pairs[0][0])} / {row(pairs[0][1])}",
-                    replay={"kind": "table", "clause": clause, "enum": en,
-                            "pairs": [[row(a), row(b)] for a, b in pairs], "table": path,
-                            "cmd": "harness/target/debug/drv-ffitab dump --out t.ndjson ; TABLE=t.ndjson tlc spec/data/FfiTable"},
-                    signature=f"table:NamesDistinct:{en}"))
-            continue
+            tw = [(x, y) for x, y in offs if twins(x, y)]
+            if tw:
+                out.append(vp.Violation(
+                    f"error table: NamesDistinct fails: {len(tw)} open/create twin pairs of the *OpenOrCreateError enums have "
+                    f"distinct C codes but the same printable name, e.g. {row(tw[0][0])} / {row(tw[0][1])}",
+                    replay={"kind": "table", "clause": clause, "pairs": [[row(x), row(y)] for x, y in tw], "table": path, "cmd": cmd},
+                    signature="table:NamesDistinct:OpenOrCreate-open/create-twins"))
+            offs = [[x, y] for x, y in offs if not twins(x, y)]
         for o in offs:
             if isinstance(o, list):
-                a, b = sorted(o, key=lambda x: x["variant"])
-                what = f"{row(a)} and {row(b)} share one C code"
-                sig = f"table:{clause}:{a['enum']}:{a['variant']}={b['variant']}"
-                en = a["enum"]
+                x, y = sorted(o, key=lambda r: r["variant"])
+                what = f"{row(x)} and {row(y)} share " + ("one C code" if clause == "Injective" else "one printable name")
+                sig = f"table:{clause}:{x['enum']}::{x['variant']}={y['variant']}"
+                if clause == "Injective" and x["enum"] == "ServiceRemoveError" and {x["variant"], y["variant"]} == {"Interrupt", "VersionMismatch"}:
+                    sig = "table:Injective:ServiceRemoveError::VersionMismatch=Interrupt"
+                if clause == "Injective" and x["enum"] == "EventOpenOrCreateError" and \
+                        {x["variant"], y["variant"]} == {"EventOpenError(Interrupt)", "EventCreateError(Interrupt)"}:
+                    sig = "table:Injective:EventOpenOrCreateError:open-Interrupt=create-Interrupt"
+                en = x["enum"]
             else:
                 what = {"Total": "the conversion yields no C code (it does not return / leaves the C enum)",
                         "NoCollisionWithOK": "an error is converted to IOX2_OK",
                         "NamesNonEmpty": "the C code has no printable name",
                         "NamesRustError": "the C enum has a constant named like the Rust variant, but the variant is mapped "
                                           "to a constant with another name"}[clause] + ": " + row(o)
-                sig = f"table:{clause}:{o['enum']}:{o['variant']}"
+                sig = f"table:{clause}:{o['enum']}::{o['variant']}"
+                if clause == "Total" and o["variant"] == "SystemInFlux":
+                    sig = "table:Total:SystemInFlux"
                 en = o["enum"]
-            ctx.report(vp.Violation(
-                f"error table: {clause} fails: {what}",
-                replay={"kind": "table", "clause": clause, "enum": en, "rows": o, "table": path,
-                        "cmd": "harness/target/debug/drv-ffitab dump --out t.ndjson ; TABLE=t.ndjson tlc spec/data/FfiTable"},
-                signature=sig))
-    return path
+            out.append(vp.Violation(f"error table: {clause} fails: {what}",
+                                    replay={"kind": "table", "clause": clause, "enum": en, "rows": o, "table": path, "cmd": cmd},
+                                    signature=sig))
+    return out
+
+
+def dump_table(ctx):
+    path = ctx.path("table", "table.ndjson")
+    _, so, _ = vp.run_driver(TAB, ["dump", "--out", path], timeout=600)
+    summ = vp.last_json_line(so)
+    if summ["rows"] < 100:
+        raise vp.ToolError(f"error table too small: {summ}")
+    codes = {}
+    for r in vp.read_ndjson(path):
+        if r.get("k") == "row" and r["st"] == "ok":
+            codes[(r["enum"], r["variant"])] = r["code"]
+    return path, summ, codes
 
 
 # ---------------------------------------------------------------------------------------------
@@ -465,13 +488,18 @@ def simulate_rr(ctx, c, num, length):
         f.write("INIT GenInit\nNEXT GenNext\nCONSTANTS\n" + rr_constants(c, 6, 3, True, True, True, True, min(c["nc"], 2), min(c["ns"], 2))
                 + f" GenLen = {length}\n GenLean = FALSE\n GenMinimal = FALSE\n WitnessMax = 0\nCHECK_DEADLOCK FALSE\n"
                   "INVARIANT Behaviour\n")
-    res = vp.tlc(d, "G_rr", workers=1, timeout=600, libs=["api"], coverage=False, simulate=f"num={num}",
+    res = vp.tlc(d, "G_rr", workers=1, timeout=600, libs=["api"], coverage=False, simulate=f"num={3 * num}",
                  extra=["-depth", "400", "-seed", str(ctx.seed)])
     vp.record_tlc(ctx, f"ReqResGen[simulate num={num} len={length}]", res, count=False)
     if res.timed_out:
         raise vp.ToolError("TLC simulation of ReqResGen timed out")
-    progs = [json.loads(m.group(1).encode().decode("unicode_escape"))
-             for m in re.finditer(r'<<"BEHAVIOUR", "(.*)">>', res.output)]
+    # the simulator evaluates the invariant on every candidate successor: one group of behaviours per walk
+    # (same prefix, different last call) - the last member of every group is kept
+    progs, seen = [], {}
+    for m in re.finditer(r'<<"BEHAVIOUR", "(.*)">>', res.output):
+        prog = json.loads(m.group(1).encode().decode("unicode_escape"))
+        seen[json.dumps(prog[:-1], sort_keys=True)] = prog
+    progs = list(seen.values())
     if not progs:
         raise vp.ToolError("ReqResGen simulation produced no behaviour:\n" + res.output[-2000:])
     return progs[:num]
@@ -495,16 +523,18 @@ def execute(ctx, table, jobs, tag):
     return runs, vp.last_json_line(so), None
 
 
-def strip(e):
-    return {k: v for k, v in e.items() if k not in IGNORE}
+def strip(e, mixed=False):
+    skip = IGNORE | ({"left", "files"} if mixed else set())
+    return {k: v for k, v in e.items() if k not in skip}
 
 
-def first_difference(ra, rb):
-    """(index, key, value a, value b) of the first event that differs, None if the runs are equal"""
+def first_difference(ra, rb, mixed=False):
+    """(index, key, value a, value b) of the first event that differs, None if the runs are equal.
+    A mixed run has one node more than a single-API run: its end-of-run listing is not compared."""
     for i in range(max(len(ra), len(rb))):
         if i >= len(ra) or i >= len(rb):
             return i, "length", len(ra), len(rb)
-        a, b = strip(ra[i]), strip(rb[i])
+        a, b = strip(ra[i], mixed), strip(rb[i], mixed)
         if a != b:
             keys = [k for k in ("cr", "r", "rl", "a") if a.get(k) != b.get(k)] or sorted(k for k in set(a) | set(b) if a.get(k) != b.get(k))
             k = keys[0]
@@ -515,7 +545,7 @@ def first_difference(ra, rb):
 def describe(e):
     if e.get("k") in ("reset",):
         return "reset " + json.dumps({k: v for k, v in e.items() if k not in ("k", "service")}, sort_keys=True)
-    skip = {"k", "bad", "via", "al", "hp", "np", "ns", "ncl", "nsv", "ok", "rid", "ch", "w"}
+    skip = {"k", "bad", "via", "al", "hp", "np", "ns", "ncl", "nsv", "ok", "rid", "ch", "w", "i"}
     keep = {k: v for k, v in e.items() if k not in skip and v not in (0, "", [], -1) or k in ("r",)}
     return json.dumps(keep, sort_keys=True)
 
@@ -536,28 +566,30 @@ def rr_trace_module(ctx, c, name):
     return d, f"TR_{name}"
 
 
-def validate(ctx, pat, runs, tag, rrcfg=None):
+def validate(ctx, pat, runs, tag, rrcfg=None, weight=None):
     """Validates a list of runs with the trace specification of `pat`.
     Returns the list of (run index, position in run, record, invariant) of rejected runs; all other runs were
-    explained completely.  Runs after a rejected one are validated in a further TLC run."""
+    explained completely.  Runs after a rejected one are validated in a further TLC run.
+    weight[k] = number of recorded traces run k stands for (traces that are identical to it)."""
     rejected, base, rounds = [], 0, 0
     items = list(runs)
+    weight = list(weight or [1] * len(items))
+    spec_name = {"ps": "PubSubTraceFfi", "ev": "EventObsTrace", "rr": "ReqResTraceFfi"}[pat]
     while items:
         p = ctx.path("val", f"{tag}.{rounds}.ndjson")
         vp.write_ndjson(p, [e for r in items for e in r])
         if pat == "ps":
-            v = vp.tlc_trace("ffi", "PubSubTraceFfi", p, libs=["api"], timeout=1800)
+            v = vp.tlc_trace("ffi", "PubSubTraceFfi", p, libs=["api"], timeout=1500)
         elif pat == "ev":
-            v = vp.tlc_trace("lockfree", "EventObsTrace", p, timeout=1800)
+            v = vp.tlc_trace("lockfree", "EventObsTrace", p, timeout=1500)
         else:
             d, m = rr_trace_module(ctx, rrcfg, tag.replace("-", "_"))
-            v = vp.tlc_trace(d, m, p, libs=["api", "ffi"], timeout=1800)
+            v = vp.tlc_trace(d, m, p, libs=["api", "ffi"], timeout=1500)
         with LOCK:
-            spec_name = {"ps": "PubSubTraceFfi", "ev": "EventObsTrace", "rr": "ReqResTraceFfi"}[pat]
             vp.record_tlc(ctx, f"{spec_name}[{tag}: {len(items)} runs, {sum(len(r) for r in items)} records]", v.res, count=True)
         if v.accepted:
             with LOCK:
-                ctx.traces_validated += len(items)
+                ctx.traces_validated += sum(weight[base:base + len(items)])
             break
         pos = v.pos if v.pos is not None else max(1, len(v.res.cex) - 1)
         acc, idx = 0, len(items) - 1
@@ -569,18 +601,13 @@ def validate(ctx, pat, runs, tag, rrcfg=None):
         rel = min(max(pos - acc, 1), len(items[idx]))
         rejected.append((base + idx, rel, items[idx][rel - 1], v.invariant))
         with LOCK:
-            ctx.traces_validated += idx
+            ctx.traces_validated += sum(weight[base:base + idx])
         base += idx + 1
         items = items[idx + 1:]
         rounds += 1
         if rounds >= 6 and items:
             raise vp.ToolError(f"{tag}: more than 6 runs rejected by the trace specification; first: {rejected[0]}")
     return rejected
-
-
-import threading  # noqa: E402
-
-LOCK = threading.Lock()
 
 
 def parallel(jobs, n=4):
@@ -598,8 +625,13 @@ class Program:
         self.runs = {}        # mode -> recorded run
 
 
-def modes_of(pat, i, quick):
-    mixed = {"ps": ["cpub", "rpub", "alt"], "rr": ["ccl", "rcl", "alt"], "ev": ["cnot", "rnot"]}[pat]
+MIXED = {"ps": ["cpub", "rpub", "alt"], "rr": ["ccl", "rcl", "alt"], "ev": ["cnot", "rnot"]}
+
+
+def modes_of(pr, i, quick):
+    if pr.origin == "witness":
+        return ["rust", "c"]
+    mixed = MIXED[pr.pat]
     return ["rust", "c"] + ([mixed[i % len(mixed)]] if quick else mixed)
 
 
@@ -607,6 +639,64 @@ def job_of(pr, mode, i):
     tag = {"ps": tag_ps, "rr": tag_rr, "ev": tag_ev}[pr.pat]
     return {"pat": pr.pat, "cfg": pr.cfg, "creator": creator_of(mode, i), "order": pr.order, "mode": mode,
             "program": tag(pr.prog, mode)}
+
+
+def copy_send_loan_failure(pat, run):
+    """index of the first program step at which a copy-send failed in its loan half (Rust-only run), or None"""
+    for k, e in enumerate(run):
+        if pat == "ps" and e.get("via") == "send_copy" and e.get("a") == "loan" and e.get("r") != "ok":
+            return e["i"]
+        if pat == "rr" and e.get("a") in ("SendCopy", "SendCopyResponse") and "LoanError(" in e.get("rl", ""):
+            return k - 1          # record k of a run answers step k-1 (record 0 is the reset)
+    return None
+
+
+def known_copy_send(codes, pat, ea, eb, key):
+    """the disagreement is: a copy-send whose Rust result wraps LoanError::V, and the C code is V's code in the
+    loan error enum although the function documents the send error enum"""
+    if key not in ("cr", "r", "rl"):
+        return False
+    if pat == "ps":
+        if eb.get("via") != "send_copy" or ea.get("via") != "send_copy":
+            return False
+        en, ra, rb = "SendError", ea.get("cr", ""), eb.get("cr", "")
+    elif pat == "rr" and ea.get("a") in ("SendCopy", "SendCopyResponse") and ea.get("a") == eb.get("a"):
+        en, ra, rb = ("RequestSendError" if ea["a"] == "SendCopy" else "SendError"), ea.get("rl", ""), eb.get("rl", "")
+    else:
+        return False
+    m = re.search(r"LoanError\((\w+)\)", ra)
+    if not m or ("LoanError", m.group(1)) not in codes:
+        return False
+    return any(codes[("LoanError", m.group(1))] == codes.get((en, lab)) for lab in rb.split("|"))
+
+
+def build_programs(ctx, rnd, quick, simq, rrcfgs, sim_ps, sim_rr):
+    programs = []
+    kinds = payload_kinds(rnd, 64)
+    for i, prog in enumerate(sim_ps):
+        # the behaviour is the sequence of `out` records of the model: keep the call and its arguments
+        prog = [{k: v for k, v in a.items() if k in ("a", "p", "s", "id", "buf", "req")} for a in prog
+                if a.get("a") not in ("update_sub", "abandon_sub", "none")]
+        programs.append(Program("ps", dict(simq, payload=kinds[i % len(kinds)], variant=("ipc", "local")[(i // 4) % 2]), prog, "tlc"))
+    for i in range(10 if quick else 80):
+        q = ps_qos(rnd, kinds[(i + 2) % len(kinds)], ("ipc", "ipc", "local")[i % 3])
+        programs.append(Program("ps", q, gen_ps_program(rnd, q, 70 if quick else 110), "seeded", order=i % 3))
+    for payload, prog in KNOWN_PS:
+        q = dict(maxpubs=1, maxsubs=1, bufmax=1, hist=0, borrow=1, loan=1, overflow=1, strategy="discard", payload=payload,
+                 variant="ipc")
+        programs.append(Program("ps", q, prog, "witness"))
+    plain = [{k: v for k, v in c.items() if k not in ("nreq", "nresp")} for c in rrcfgs]
+    for prog in sim_rr:
+        programs.append(Program("rr", plain[0], prog, "tlc"))
+    for c, dc in zip(rrcfgs, plain):
+        for i in range(6 if quick else 40):
+            programs.append(Program("rr", dc, gen_rr_program(rnd, c, 50 if quick else 80), "seeded", order=i % 2))
+    for prog in KNOWN_RR:
+        programs.append(Program("rr", plain[0], prog, "witness"))
+    for i in range(6 if quick else 40):
+        c = dict(variant=("ipc", "local")[i % 2], maxid=rnd.choice((3, 7, 15)), max_notifiers=rnd.choice((1, 2, 3)), max_listeners=1)
+        programs.append(Program("ev", c, gen_ev_program(rnd, c, 40 if quick else 80), "seeded", order=i % 2))
+    return programs
 
 
 def run(ctx):
@@ -617,18 +707,20 @@ def run(ctx):
     ctx.assumptions += [
         "sequential programs executed by one thread in one process; C and Rust participants share the process",
         "IPC = ipc::Service on the Rust side and iox2_service_type_e::IPC (ipc_threadsafe) on the C side",
-        "channel / request ids are unobservable through the C API (left to TLC); update_connections of subscriber, "
-        "client and server is not part of the C API",
-        "copy-send at the loan limit is exercised only by dedicated witness programs (known finding)",
+        "channel / request ids are unobservable through the C API: a run that equals its Rust-only run on everything "
+        "observable is validated with the channel ids of that run; a divergent run leaves them to TLC",
+        "a trace that is identical (on every field a specification reads) to a validated one is not validated again",
+        "copy-send at the loan limit is exercised only by dedicated witness programs (known finding): generated programs "
+        "are cut before such a call",
     ]
-    # ---- 1. error table (TLC) and, side by side, TLC as program generator ---------------------------------
+    # ---- 1. error table: dumped from the running code, clauses evaluated by TLC; side by side TLC generates programs ---
     sel = ctx.seed % 3
     simq = dict(maxpubs=2, maxsubs=3, bufmax=2, hist=2, borrow=2, loan=2, overflow=1 if sel == 0 else 0,
                 strategy=("discard", "retry_fail", "retry_discard")[sel])
     rrcfgs = [dict(svc="ipc", nc=3, ns=2, ma=2, ml=1, rb=2, mb=2, mlr=1, oq=False, op=False, ff=False, msv=2, mcl=2)]
     if not quick:
         rrcfgs.append(dict(svc="local", nc=2, ns=2, ma=1, ml=2, rb=1, mb=1, mlr=2, oq=True, op=True, ff=True, msv=2, mcl=2))
-    table = error_table(ctx)
+    table, tsumm, codes = dump_table(ctx)
     # chunk counts of the request-response configurations, read from the running code (reset record)
     runs, _, err = execute(ctx, table, [{"pat": "rr", "cfg": c, "creator": "rust", "mode": "params", "program": []} for c in rrcfgs],
                            "params")
@@ -639,46 +731,36 @@ def run(ctx):
         if c["nreq"] < 1 or c["nresp"] < 1:
             raise vp.ToolError(f"parameter extraction failed: {r[0]}")
     nsim = 6 if quick else 40
-    sim_ps, sim_rr = parallel([(simulate_ps, (ctx, simq, nsim, 36 if quick else 60)),
-                               (simulate_rr, (ctx, rrcfgs[0], nsim, 40 if quick else 60))], 2)
+    table_violations, sim_ps, sim_rr = parallel([(error_table, (ctx, table, tsumm)),
+                                                 (simulate_ps, (ctx, simq, nsim, 36 if quick else 60)),
+                                                 (simulate_rr, (ctx, rrcfgs[0], nsim, 40 if quick else 60))], 3)
+    for v in table_violations:
+        ctx.report(v)
 
-    # ---- 2. programs ----------------------------------------------------------------------------------------
-    programs = []
-    kinds = payload_kinds(rnd, 64)
-    for i, prog in enumerate(sim_ps):
-        programs.append(Program("ps", dict(simq, payload=kinds[i], variant=("ipc", "local")[(i // 4) % 2]), prog, "tlc"))
-    ngen = 10 if quick else 80
-    for i in range(ngen):
-        q = ps_qos(rnd, kinds[(i + 2) % len(kinds)], ("ipc", "ipc", "local")[i % 3])
-        programs.append(Program("ps", q, gen_ps_program(rnd, q, 70 if quick else 110), "seeded", order=i % 3))
-    for payload, prog in KNOWN_PS:
-        q = dict(maxpubs=1, maxsubs=1, bufmax=1, hist=0, borrow=1, loan=1, overflow=1, strategy="discard", payload=payload,
-                 variant="ipc")
-        programs.append(Program("ps", q, prog, "witness"))
-    for i, prog in enumerate(sim_rr):
-        programs.append(Program("rr", {k: v for k, v in rrcfgs[0].items() if k not in ("nreq", "nresp")}, prog, "tlc"))
-    for ci, c in enumerate(rrcfgs):
-        dc = {k: v for k, v in c.items() if k not in ("nreq", "nresp")}
-        for i in range(6 if quick else 40):
-            programs.append(Program("rr", dc, gen_rr_program(rnd, c, 50 if quick else 80), "seeded", order=i % 2))
-    for prog in KNOWN_RR:
-        programs.append(Program("rr", {k: v for k, v in rrcfgs[0].items() if k not in ("nreq", "nresp")}, prog, "witness"))
-    for i in range(6 if quick else 40):
-        c = dict(variant=("ipc", "local")[i % 2], maxid=rnd.choice((3, 7, 15)), max_notifiers=rnd.choice((1, 2, 3)), max_listeners=1)
-        programs.append(Program("ev", c, gen_ev_program(rnd, c, 40 if quick else 80), "seeded", order=i % 2))
+    # ---- 2. programs; a first Rust-only pass cuts generated programs before a copy-send at the loan limit ----------
+    programs = build_programs(ctx, rnd, quick, simq, rrcfgs, sim_ps, sim_rr)
+    runs, _, err = execute(ctx, table, [job_of(pr, "rust", i) for i, pr in enumerate(programs)], "pass1-rust")
+    if err or len(runs) != len(programs):
+        raise vp.ToolError(f"the Rust-only reference pass failed: {err} ({len(runs)} of {len(programs)} runs)")
+    cut = 0
+    for pr, r in zip(programs, runs):
+        k = copy_send_loan_failure(pr.pat, r)
+        if k is not None and pr.origin != "witness":
+            pr.prog = pr.prog[:k]
+            cut += 1
+    ctx.coverage["programs_cut_before_known_copy_send_shape"] = cut
 
-    # ---- 3. execution: Rust-only, C-only, mixed -----------------------------------------------------------------
+    # ---- 3. execution: Rust-only, C-only, mixed ---------------------------------------------------------------------
     by_mode = {}
     for i, pr in enumerate(programs):
-        for mode in modes_of(pr.pat, i, quick):
+        for mode in modes_of(pr, i, quick):
             by_mode.setdefault(mode, []).append((i, pr))
     counts, crashes = {}, []
     for mode, items in sorted(by_mode.items()):
         jobs = [job_of(pr, mode, i) for i, pr in items]
         runs, summ, err = execute(ctx, table, jobs, f"mode-{mode}")
         if err:
-            # the run that was being executed when the driver died
-            k = max(len(runs) - 1, 0)
+            k = max(len(runs) - 1, 0)      # the run that was being executed when the driver died
             i, pr = items[min(k, len(items) - 1)]
             crashes.append((mode, i, err))
             ctx.report(vp.Violation(
@@ -701,57 +783,70 @@ def run(ctx):
     ctx.coverage["programs_by_origin"] = {f"{p}:{o}": sum(1 for pr in programs if pr.pat == p and pr.origin == o)
                                           for p in ("ps", "rr", "ev") for o in ("tlc", "seeded", "witness")
                                           if any(pr.pat == p and pr.origin == o for pr in programs)}
+    ctx.coverage["payload_kinds"] = sorted({pr.cfg["payload"] for pr in programs if pr.pat == "ps"})
     ctx.coverage["actions_through_c"] = {k[2:]: v for k, v in sorted(counts.items()) if k.startswith("c:")}
     ctx.coverage["actions_through_rust"] = {k[5:]: v for k, v in sorted(counts.items()) if k.startswith("rust:")}
 
-    # ---- 4. comparison: all traces of one program must be equal event by event -------------------------------------
+    # ---- 4. comparison: all traces of one program must be equal event by event -----------------------------------------
     divergent = []      # (program index, mode, index of first differing event, key, rust value, other value)
+    equal_runs = {}     # program index -> number of runs identical to the Rust-only run (itself included)
     for i, pr in enumerate(programs):
         ref = pr.runs.get("rust")
         if ref is None:
             continue
+        equal_runs[i] = 1
         for mode, r in pr.runs.items():
             if mode == "rust":
                 continue
-            d = first_difference(ref, r)
+            d = first_difference(ref, r, mixed=mode not in ("rust", "c"))
             if d:
                 divergent.append((i, mode) + d)
-    ctx.coverage["divergent_runs"] = len(divergent)
+            else:
+                equal_runs[i] += 1
+    ctx.coverage["runs_identical_to_their_rust_only_run"] = sum(equal_runs.values()) - len(equal_runs)
+    ctx.coverage["disagreements_checked"] = len(divergent)
 
-    # ---- 5. validation by TLC ---------------------------------------------------------------------------------------
-    div_set = {(i, mode) for (i, mode, *_rest) in divergent}
-    batches = []   # (pat, tag, rrcfg, [(program index, mode)])
+    # ---- 5. validation by TLC: the Rust-only run of every program (= every run identical to it) and, on its own,
+    #         the prefix of every divergent run up to and including the first event that differs ------------------------
+    plain = [{k: v for k, v in c.items() if k not in ("nreq", "nresp")} for c in rrcfgs]
+    batches = []   # (pat, tag, rrcfg, [program index])
     for pat in ("ps", "ev"):
-        sel_runs = [(i, m) for i, pr in enumerate(programs) if pr.pat == pat for m in sorted(pr.runs) if (i, m) not in div_set]
-        if sel_runs:
-            batches.append((pat, pat, None, sel_runs))
-    for ci, c in enumerate(rrcfgs):
-        dc = {k: v for k, v in c.items() if k not in ("nreq", "nresp")}
-        sel_runs = [(i, m) for i, pr in enumerate(programs) if pr.pat == "rr" and pr.cfg == dc for m in sorted(pr.runs)
-                    if (i, m) not in div_set]
-        if sel_runs:
-            batches.append(("rr", f"rr{ci}", c, sel_runs))
-    jobs = [(validate, (ctx, pat, [programs[i].runs[m] for i, m in sel_runs], tag, c)) for pat, tag, c, sel_runs in batches]
-    # every divergent run is validated on its own: the verdict says which side deviates
-    for (i, mode, *_r) in divergent:
+        idx = [i for i, pr in enumerate(programs) if pr.pat == pat and "rust" in pr.runs]
+        if idx:
+            batches.append((pat, pat, None, idx))
+    for ci, (c, dc) in enumerate(zip(rrcfgs, plain)):
+        idx = [i for i, pr in enumerate(programs) if pr.pat == "rr" and pr.cfg == dc and "rust" in pr.runs]
+        if idx:
+            batches.append(("rr", f"rr{ci}", c, idx))
+    jobs = [(validate, (ctx, pat, [programs[i].runs["rust"] for i in idx], tag, c, [equal_runs[i] for i in idx]))
+            for pat, tag, c, idx in batches]
+    for (i, mode, at, *_r) in divergent:
         pr = programs[i]
-        c = next((c for c in rrcfgs if {k: v for k, v in c.items() if k not in ("nreq", "nresp")} == pr.cfg), None)
-        jobs.append((validate, (ctx, pr.pat, [pr.runs[mode]], f"div-{i}-{mode}", c)))
+        ref, oth = pr.runs["rust"], pr.runs[mode]
+        prefix = []
+        for k, e in enumerate(oth[:at + 1]):
+            e = dict(e)
+            if pr.pat == "rr" and k < at and k < len(ref) and e.get("k") == "op":
+                e["ch"], e["rid"] = ref[k].get("ch", -1), ref[k].get("rid", -1)     # same observables, same channel
+            prefix.append(e)
+        c = next((c for c, dc in zip(rrcfgs, plain) if dc == pr.cfg), None)
+        jobs.append((validate, (ctx, pr.pat, [prefix], f"div-{i}-{mode}", c)))
     results = parallel(jobs, 4 if quick else 6)
     spec_rejected = {}     # (program index, mode) -> (rel, record, invariant)
-    for (pat, tag, c, sel_runs), rej in zip(batches, results[:len(batches)]):
+    for (pat, tag, c, idx), rej in zip(batches, results[:len(batches)]):
         for (k, rel, record, inv) in rej:
-            spec_rejected[sel_runs[k]] = (rel, record, inv)
+            spec_rejected[(idx[k], "rust")] = (rel, record, inv)
     for (i, mode, *_r), rej in zip(divergent, results[len(batches):]):
         if rej:
             spec_rejected[(i, mode)] = rej[0][1:]
 
-    # ---- 6. classification ----------------------------------------------------------------------------------------------
-    ctx.coverage["disagreements_checked"] = len(divergent)
+    # ---- 6. classification -------------------------------------------------------------------------------------------------
     for (i, mode, idx, key, va, vb) in divergent:
         pr = programs[i]
         ref, oth = pr.runs["rust"], pr.runs[mode]
         rej_ref, rej_oth = spec_rejected.get((i, "rust")), spec_rejected.get((i, mode))
+        if rej_ref and rej_ref[0] > idx + 1:
+            rej_ref = None                 # the Rust-only run is explained up to the point of disagreement
         ea = ref[idx] if idx < len(ref) else {}
         eb = oth[idx] if idx < len(oth) else {}
         action = eb.get("via") if eb.get("via") not in (None, "loan", "send") else eb.get("a", ea.get("a", "end"))
@@ -766,6 +861,9 @@ def run(ctx):
             side = "neither trace is explainable by the specification"
         else:
             side = "the specification explains both traces (the observable is fixed by the property statement only)"
+        sig = f"api:{pr.pat}:{action}:{key}:{va}->{vb}"
+        if rej_oth and not rej_ref and known_copy_send(codes, pr.pat, ea, eb, key):
+            sig = "behaviour:send_copy:LoanError-code-in-send_error-space"
         ctx.report(vp.Violation(
             f"{pr.pat} program #{i} ({pr.origin}): Rust-only and {mode} runs disagree at event {idx} on `{key}`: "
             f"{va!r} (Rust) vs {vb!r} ({mode}); {side}",
@@ -776,45 +874,38 @@ def run(ctx):
                     "trace_other": [describe(e) for e in oth[:idx + 2]][-40:],
                     "spec_verdict_rust": "rejected" if rej_ref else "accepted",
                     "spec_verdict_other": "rejected" if rej_oth else "accepted"},
-            signature=f"api:{pr.pat}:{action}:{key}:{va}->{vb}"))
+            signature=sig))
+    div_prog = {i for (i, *_r) in divergent}
     for (i, mode), (rel, record, inv) in sorted(spec_rejected.items()):
-        if (i, mode) in div_set:
+        if mode != "rust" or (i in div_prog and rel > min(d[2] for d in divergent if d[0] == i)):
             continue
+        # the Rust-only run (and every run identical to it) is not explained by the reference specification: the same
+        # behaviour through both APIs - not a C18 matter, reported by the owner of that specification
         pr = programs[i]
-        same = all((i, m) in spec_rejected for m in pr.runs)
-        if same:
-            # identical behaviour through both APIs that the reference specification does not explain: not a C18 matter
-            if mode == "rust":
-                ctx.note(f"{pr.pat} program #{i} ({pr.origin}): rejected by the reference specification through BOTH APIs "
-                         f"identically at {describe(record)} (invariant {inv}) - reported by the owner of that specification")
-            continue
-        ctx.report(vp.Violation(
-            f"{pr.pat} program #{i} ({pr.origin}), mode {mode}: the trace equals the Rust-only trace on everything compared, "
-            f"but the specification cannot explain {describe(record)}" + (f" (invariant {inv})" if inv else ""),
-            replay={"kind": "trace", "pattern": pr.pat, "mode": mode, "cfg": pr.cfg, "program": pr.prog,
-                    "job": job_of(pr, mode, i), "trace": [describe(e) for e in pr.runs[mode][:rel + 1]][-60:],
-                    "first_unexplained": record, "invariant": inv},
-            signature=f"trace:{pr.pat}:{mode}:{record.get('a')}:{record.get('r')}:{inv}"))
+        ctx.note(f"{pr.pat} program #{i} ({pr.origin}): the Rust-only run and the {equal_runs[i] - 1} runs identical to it are "
+                 f"rejected by the reference specification at {describe(record)} (invariant {inv})")
+        ctx.coverage.setdefault("rejected_identically_through_both_apis", []).append(
+            {"pattern": pr.pat, "cfg": pr.cfg, "program": pr.prog, "first_unexplained": record, "invariant": inv})
 
-    # ---- 7. samples, vacuity ------------------------------------------------------------------------------------------------
+    # ---- 7. samples, vacuity ---------------------------------------------------------------------------------------------------
     for pat in ("ps", "rr", "ev"):
-        pr = next((p for p in programs if p.pat == pat and p.origin != "witness" and "c" in p.runs), None)
+        pr = next((p for p in programs if p.pat == pat and p.origin != "witness" and "c" in p.runs and len(p.prog) > 10), None)
         if pr:
             mixed = next((m for m in pr.runs if m not in ("rust", "c")), "c")
             ctx.sample({"pattern": pat, "origin": pr.origin, "cfg": pr.cfg,
                         "program": [json.dumps(a, sort_keys=True) for a in pr.prog[:25]],
                         f"trace[{mixed}]": [describe(e) for e in pr.runs[mixed][1:25]],
                         "end[c]": pr.runs["c"][-1], "end[rust]": pr.runs["rust"][-1]})
-    if not ctx.violations or all(v.signature and v.signature.startswith("table:") for v in ctx.violations):
-        missing = [k for k, alts in CORE.items() if not any(counts.get(a, 0) > 0 for a in alts)]
-        if missing and not crashes:
-            raise vp.ToolError(f"vacuous: core actions never exercised through the C API: {missing}; counts: {counts}")
+    missing = [k for k, alts in CORE.items() if not any(counts.get(a, 0) > 0 for a in alts)]
+    if missing and not crashes:
+        raise vp.ToolError(f"vacuous: core actions never exercised through the C API: {missing}; counts: {counts}")
     ctx.coverage["core_actions_through_c"] = {k: sum(counts.get(a, 0) for a in alts) for k, alts in CORE.items()}
     ctx.coverage["rule"] = ("programs = generated behaviours (TLC -simulate over PubSubGen/ReqResGen, seeded generator, "
                             "known-finding witnesses) executed through BOTH APIs (Rust-only and C-only; plus mixed); "
                             "executions = program x mode runs; distinct = distinct (pattern, QoS, program); "
                             "disagreements_checked = runs that differ from their Rust-only run, each validated on its own by "
-                            "TLC; traces_validated = runs explained completely by the trace specification")
+                            "TLC up to the first differing event; traces_validated = recorded runs explained completely by "
+                            "the trace specification (a run identical to a validated one counts with it)")
     cleanup()
 
 
@@ -836,18 +927,14 @@ def replay(ctx, path):
     print(json.dumps({k: body.get(k) for k in ("what", "signature", "kind", "clause", "field", "rust_value", "other_value")}, indent=1))
     vp.cargo_build([TAB])
     vp.cargo_build([DRV])
+    table, tsumm, _codes = dump_table(ctx)
     if body.get("kind") == "table":
-        before = len(ctx.violations) + len(ctx.known_hits)
-        error_table(ctx)
-        again = [v for v in ctx.violations if v.signature == body.get("signature")] or \
-                [h for h in ctx.known_hits if h[0] == body.get("signature")]
-        print("REPRODUCED" if again else "not reproduced on the current tree")
-        return 1 if again else 0
+        found = [v for v in error_table(ctx, table, tsumm) if v.signature == body.get("signature")]
+        print("REPRODUCED" if found else "not reproduced on the current tree")
+        return 1 if found else 0
     jobs = [body[k] for k in ("job_rust", "job_other", "job") if body.get(k)]
     if not jobs:
         return 0
-    table = ctx.path("table", "table.ndjson")
-    vp.run_driver(TAB, ["dump", "--out", table], timeout=600)
     runs, _, err = execute(ctx, table, jobs, "replay")
     for r in runs:
         print("-----", r[0].get("mode"))
@@ -857,7 +944,7 @@ def replay(ctx, path):
         print("driver:", err)
         return 1
     if len(runs) == 2:
-        d = first_difference(runs[0], runs[1])
+        d = first_difference(runs[0], runs[1], mixed=runs[1][0].get("mode") not in ("rust", "c"))
         print("REPRODUCED: first difference " + str(d) if d else "not reproduced on the current tree")
         return 1 if d else 0
     return 0
